@@ -143,8 +143,24 @@ fn size_hint_op<T: Modelled + Encode>(v: &V) -> usize {
     T::from_model(v).size_hint()
 }
 
+/// First 160 bytes of the error description (the chained description of a deeply nested
+/// failure grows quadratically; formatting is cut off by a bounded writer).
 fn err_s(e: parity_scale_codec::Error) -> String {
-    e.to_string()
+    struct Bounded(String);
+    impl std::fmt::Write for Bounded {
+        fn write_str(&mut self, s: &str) -> std::fmt::Result {
+            for c in s.chars() {
+                if self.0.len() >= 160 {
+                    return Err(std::fmt::Error);
+                }
+                self.0.push(if c == '\n' || c == '\t' { ' ' } else { c });
+            }
+            Ok(())
+        }
+    }
+    let mut b = Bounded(String::new());
+    let _ = std::fmt::write(&mut b, format_args!("{}", e));
+    b.0
 }
 
 fn decode_op<T: Modelled + Decode>(data: &[u8], src: &SourceSpec, mode: Mode) -> DecOut {
